@@ -278,6 +278,7 @@ long struct_rank_prefix(const csc_t *G, const int_t *perm_c); /* min k with stru
 int  count_tasks(void);
 int  count_tasks_settled(int expect);
 int  count_fds(void);
+size_t heap_bytes(void);
 double now_s(void);
 void *xmalloc(size_t n);
 void *xcalloc(size_t n, size_t s);
